@@ -116,8 +116,14 @@ type front interface {
 	Servers() []*url.URL
 }
 
+// innerAdminMode: (rebalancer variants) the servers are supplied to the balancer the rebalancer WRAPS - as they are
+// when the rebalancer is put around a balancer that is already populated, or when the pool is administered through
+// the balancer - while requests go through the rebalancer.
+var innerAdminMode bool
+
 type world struct {
 	f         front
+	admin     front // where UpsertServer / RemoveServer go (the front itself, or the wrapped balancer in innerAdminMode)
 	seen      *url.URL
 	calls     int
 	pool      map[string]bool // reference membership: what the add/remove calls made so far define
@@ -127,7 +133,7 @@ type world struct {
 
 func (w *world) upsert(u *url.URL, opts ...roundrobin.ServerOption) {
 	arg := *u // the balancer is handed the caller's own value, which the caller overwrites once the call has returned
-	err := w.f.UpsertServer(&arg, opts...)
+	err := w.admin.UpsertServer(&arg, opts...)
 	lib.ReuseURL(&arg)
 	if err == nil {
 		w.pool[ident(u)] = true
@@ -136,7 +142,7 @@ func (w *world) upsert(u *url.URL, opts ...roundrobin.ServerOption) {
 
 func (w *world) remove(u *url.URL) {
 	arg := *u
-	err := w.f.RemoveServer(&arg)
+	err := w.admin.RemoveServer(&arg)
 	lib.ReuseURL(&arg)
 	if err == nil {
 		delete(w.pool, ident(u))
@@ -179,7 +185,10 @@ func newWorld(rebalancer bool, enc encoding) *world {
 		if err != nil {
 			panic(err)
 		}
-		w.f = rb
+		w.f, w.admin = rb, rb
+		if innerAdminMode {
+			w.admin = rr
+		}
 	} else {
 		lo := []roundrobin.LBOption{roundrobin.EnableStickySession(ss)}
 		if listenerMode {
@@ -189,7 +198,7 @@ func newWorld(rebalancer bool, enc encoding) *world {
 		if err != nil {
 			panic(err)
 		}
-		w.f = rr
+		w.f, w.admin = rr, rr
 	}
 	return w
 }
@@ -316,7 +325,7 @@ func urlClass(s string) string {
 }
 
 func (c ctx) violate(kind, detail string, extra map[string]any) {
-	rp := map[string]any{"engine": "enum", "part": "c11", "rebalancer": c.rebalancer, "encoding": c.enc.name, "server": c.server, "listener": listenerMode}
+	rp := map[string]any{"engine": "enum", "part": "c11", "rebalancer": c.rebalancer, "encoding": c.enc.name, "server": c.server, "listener": listenerMode, "inner_admin": innerAdminMode}
 	for k, v := range extra {
 		rp[k] = v
 	}
@@ -628,7 +637,7 @@ func Run(tier string, sh lib.Shard, rep *lib.Report) {
 	rep.Bounds["server_urls"] = len(urls)
 	rep.Bounds["encodings"] = len(encs)
 	rep.Rule = "full product server URL (scheme x userinfo x host x path x query) x cookie encoding (raw, hash, AES 16/32 without and with a lifetime of 5s, 250 years, the largest duration; 16 fallback chains) x front (RoundRobin, Rebalancer): session obligations; for a subset of URLs every truncation / single-bit flip / re-encoding / foreign-key cookie and every pool-change sequence up to length 3; non-trivial = requests whose routing was checked"
-	rep.Require("sessions", "stuck_requests", "balanced_requests", "expired_cookies", "mutated_cookies", "pool_change_sequences", "sessions_with_rewrite_listener")
+	rep.Require("sessions", "stuck_requests", "balanced_requests", "expired_cookies", "mutated_cookies", "pool_change_sequences", "sessions_with_rewrite_listener", "sessions_with_servers_supplied_to_the_wrapped_balancer")
 	if sh.I == 0 {
 		fwd.StickyThroughForwarder(rep)
 		rep.Require("sticky_exchanges_through_the_real_forwarder")
@@ -658,6 +667,13 @@ func Run(tier string, sh lib.Shard, rep *lib.Report) {
 					listenerMode = false
 					rep.Count("sessions_with_rewrite_listener")
 				}
+				if rb && k%3 == 0 {
+					// the same obligations with the servers supplied to the WRAPPED balancer
+					innerAdminMode = true
+					session(c)
+					innerAdminMode = false
+					rep.Count("sessions_with_servers_supplied_to_the_wrapped_balancer")
+				}
 				if mutURLs[u] && !strings.HasPrefix(enc.name, "fallback") {
 					mutations(c)
 					poolChanges(c)
@@ -681,8 +697,9 @@ func Replay(rp map[string]any) (bool, string) {
 		rep := lib.NewReport("C11", "replay")
 		c := ctx{rep, rp["rebalancer"] == true, enc, rp["server"].(string)}
 		listenerMode = rp["listener"] == true
+		innerAdminMode = rp["inner_admin"] == true
 		session(c)
-		listenerMode = false
+		listenerMode, innerAdminMode = false, false
 		if len(rep.Violations) == 0 {
 			mutations(c)
 			poolChanges(c)
